@@ -466,10 +466,11 @@ def run(ctx):
     ctx.require("answers", "hits", "batch_lookups", "batch_hits", "forged_checks")
     cs = []
     for init in ("cold", "warm", "warm+link"):
+        d_i = 3 if init == "warm+link" else depth   # (the symlink initial state stays at depth 3 in both tiers)
         for a in ops:
-            for b in (ops if depth >= 4 else [None]):
+            for b in (ops if d_i >= 4 else [None]):
                 pre = [list(a)] + ([list(b)] if b else [])
-                cs.append({"part": "hist", "init": init, "prefix": pre, "depth": depth})
+                cs.append({"part": "hist", "init": init, "prefix": pre, "depth": d_i})
     # two large files (the hashing pool): histories that start with a staging / hashing call
     for a in (("build-midwrite", "f1"), ("build",), ("imd5-midwrite", "f1")):
         for b in ops:
